@@ -145,7 +145,7 @@ def run(ctx):
         # filter of that phase is configured before the requester
         inval = [c for c in long_ if invalid_reentry(c)]
         inval_ow = [c for c in inval if c.get("oneway")]
-        inval = [c for c in inval if not c.get("oneway")] + rng.sample(inval_ow, min(len(inval_ow), 400))
+        inval = [c for c in inval if not c.get("oneway")] + rng.sample(inval_ow, min(len(inval_ow), 300))
         long_ = [c for c in long_ if not invalid_reentry(c)]
         # the timeout environment costs 400 ms per run
         slow = [c for c in long_ if c["env"] == "rtermT"]
@@ -153,7 +153,7 @@ def run(ctx):
         core = [c for c in long_ if dense(c) and c["env"] == "ok"]
         core = rng.sample(core, min(len(core), 2500))
         rest = [c for c in long_ if not (dense(c) and c["env"] == "ok")]
-        picked = short + inval + core + rng.sample(rest, min(len(rest), 3000)) + rng.sample(slow, min(len(slow), 100))
+        picked = short + inval + core + rng.sample(rest, min(len(rest), 2500)) + rng.sample(slow, min(len(slow), 100))
     else:
         # every chain of length <= 3 (exhaustive) and a VERIF_SEED sample of the chains of length 4
         four = [c for c in cases if len(c["chain"]) > 3]
@@ -251,13 +251,16 @@ def run(ctx):
     ctx.cov["rule"] = ("one case = (chain of <=3 (thorough: 4) filters over {BeforeRoute, AfterRoute, AfterChooseHost, send}, verdict per invocation from "
                        "{continue, stop, termination, hijack+stop, hijack+continue, direct response, TerminateStream sync / from a 2nd "
                        "goroutine, re-match, re-choose in every receive phase (honoured: <=2 re-entries; not honoured: ends the pass)}, environment in {upstream 200 on a retry route, 503 then 200, "
-                       "upstream closes, TerminateStream while the upstream holds the request, TerminateStream after the end}) = one "
+                       "upstream closes, TerminateStream while the upstream holds the request / after the end / racing answer and timer, "
+                       "TerminateStream during the 2nd attempt after a retried 503 with answer or global timeout}, request kind {two-way "
+                       "HTTP/1, one-way bolt frame}) = one "
                        "complete behaviour of FilterChain.tla (%d); each is one HTTP/1 request through the in-process MOSN; quick replays "
                        "all chains of length <=2, every length-3 case with a re-match/re-choose in a non-honouring phase behind another filter of "
                        "that phase, a sample of the answer+re-entry combinations of length 3 and a VERIF_SEED sample of the rest; "
                        "thorough replays every chain of length <=3 and a VERIF_SEED sample of 25000 chains of length 4; "
                        "plus 48 cases with a real ipaccess / payloadlimit / faultinject filter denying in the middle of the chain" % len(cases))
-    ctx.assumptions += ["HTTP/1 downstream and upstream, one request at a time per MOSN instance (12-14 instances in parallel)",
+    ctx.assumptions += ["two-way requests over HTTP/1, one-way requests as bolt one-way frames through an xprotocol listener of the same MOSN; "
+                        "one request at a time per MOSN instance (12-14 instances in parallel)",
                         "honoured re-match / re-choose (AfterRoute / AfterChooseHost): at most 2 per request (the proxy's task loop has 10 "
                         "iterations: C03); returned in another receive phase the verdict is invalid and ends the pass like stop",
                         "'no reply' is observed as: ds.clean seen, no ds.reply event, and no bytes on the client connection for 25 ms",
